@@ -1160,9 +1160,14 @@ macro_rules! search_enc_c18 {
             let sk = sk_of(k);
             let pk = sk.public_key();
             let pkb = Vec::<u8>::from(&pk);
+            // documented construction: under message augmentation the identifier that is hashed carries the
+            // public-key prefix (so that SecretKey::sign(MessageAugmentation, id) is the opening key)
+            let id_eff: Vec<u8> = if scheme == 1 { [pkb.as_slice(), idb].concat() } else { idb.to_vec() };
+            let idb_raw = idb;
+            let idb: &[u8] = id_eff.as_slice();
             let seed = rng.bytes(32);
-            let key = format!("{}|{}|{}|{}|{}|{}", enc_impl(), gen::hs(k), scheme, gen::hx(&sha256(m)), gen::hx(&sha256(idb)), gen::hx(&seed));
-            let mut det = json!({"impl": enc_impl(), "sk": gen::hs(k), "scheme": gen::SCH[scheme as usize], "msg_len": m.len(), "msg": enc_hx(m), "id": enc_hx(idb), "reference_seed": gen::hx(&seed)});
+            let key = format!("{}|{}|{}|{}|{}|{}", enc_impl(), gen::hs(k), scheme, gen::hx(&sha256(m)), gen::hx(&sha256(idb_raw)), gen::hx(&seed));
+            let mut det = json!({"impl": enc_impl(), "sk": gen::hs(k), "scheme": gen::SCH[scheme as usize], "msg_len": m.len(), "msg": enc_hx(m), "id": enc_hx(idb_raw), "reference_seed": gen::hx(&seed)});
             // the opening key of the construction: sk * H(id, tag), under the scheme's label
             let keyb = enc_tl_key(G1, k, idb, scheme);
             det["opening_key"] = json!(gen::hx(&keyb));
@@ -1170,9 +1175,9 @@ macro_rules! search_enc_c18 {
                 s.case("library_decodes_reference_opening_key", key, false, det);
                 return;
             };
-            // Basic and PoP: this IS the library's signature over the identifier (Aug prefixes the key: see C13)
-            if scheme != 1 {
-                let same = enc_catch(|| sk.sign(scheme_of(scheme), idb).ok().map(|x| x == sig)).ok().flatten() == Some(true);
+            // this IS the library's signature over the identifier, for all three schemes
+            {
+                let same = enc_catch(|| sk.sign(scheme_of(scheme), idb_raw).ok().map(|x| x == sig)).ok().flatten() == Some(true);
                 s.case("library_signature_equals_reference_opening_key", key.clone(), same, det.clone());
             }
             // ---- reference seals, library opens
@@ -1208,7 +1213,7 @@ macro_rules! search_enc_c18 {
                 }
             }
             // ---- library seals, reference opens, then re-derives the whole ciphertext from alpha
-            let ct = match enc_catch(|| pk.encrypt_time_lock(scheme_of(scheme), m, idb)) {
+            let ct = match enc_catch(|| pk.encrypt_time_lock(scheme_of(scheme), m, idb_raw)) {
                 Ok(Ok(c)) => c,
                 _ => {
                     s.case("encrypt_time_lock_succeeds", key, false, det);
